@@ -2,9 +2,10 @@
 Type-directed snapshots of pyTRS objects as plain JSON values, plus the
 comparison used by the history oracles.
 
-* attributes are discovered with ``vars()`` (public names only) so that a
-  refactor which adds an attribute shows up on both sides of a comparison
-  instead of breaking the harness;
+* attributes are discovered with ``vars()`` plus the public data descriptors
+  of the class (public names only) so that a refactor which adds an
+  attribute, or turns one into a property / slot, shows up on both sides of
+  a comparison instead of breaking or blinding the harness;
 * unknown object types encode as their type name only (never ``repr``, which
   embeds addresses);
 * two projections: *full* (settings + results + element identities; used for
@@ -110,6 +111,26 @@ def _cfg_text(cfg):
         return {"__raised": type(e).__name__}
 
 
+_DESCRIPTORS = {}
+
+
+def _class_descriptors(cls):
+    """Public data descriptors of a class (properties, slots, generated
+    descriptors): a refactor may turn a plain attribute into one of these and
+    it stays just as observable."""
+    if cls not in _DESCRIPTORS:
+        import inspect
+        names = []
+        for klass in cls.__mro__:
+            for name, v in vars(klass).items():
+                if name.startswith("_") or name in names:
+                    continue
+                if inspect.isdatadescriptor(v):
+                    names.append(name)
+        _DESCRIPTORS[cls] = tuple(sorted(names))
+    return _DESCRIPTORS[cls]
+
+
 def _obj_fields(obj, props, ctx, full, depth):
     out = {}
     try:
@@ -120,6 +141,9 @@ def _obj_fields(obj, props, ctx, full, depth):
         if k.startswith("_"):
             continue
         out[k] = enc(attrs[k], ctx, full, depth + 1)
+    props = tuple(props) + tuple(
+        n for n in _class_descriptors(type(obj))
+        if n not in props and n not in out and n != "config")
     for p in props:
         ok, val = _safe_get(obj, p)
         out[p] = enc(val, ctx, full, depth + 1) if ok else {"__raised": val}
